@@ -2,8 +2,13 @@
   C15 — fallible operations fail by value, not by panic or hang.
   This file collects the "returns normally" (`… = .ok r`, i.e. no panic, no trapped overflow, no
   failed debug assertion) and "never builds an invalid value" halves of the other properties'
-  theorems, as corollaries stated for every argument of the machine domain.  Entry points whose
-  models are not yet proved total appear in props/C15.json as compared-only (extremes sweep).
+  theorems, as corollaries stated for every argument of the machine domain — constructors, checked
+  arithmetic, field replacement (naive and zone-aware), rounding, every parser and field-resolution
+  method, the RFC 3339 renderers, serde — plus three things of its own: every record the parser can
+  build is in type (so `parse_from_str` is total for arbitrary text × arbitrary format string), the
+  byte-level boundary theorems (every `&str` slice of the scanners is at a char boundary), and the
+  sharp linear bound on `StrftimeItems`.  props/C15.json lists which entry points have a theorem here
+  and which are covered by the extremes sweep only.
 -/
 import Chrono.Props.C01
 import Chrono.Props.C06
@@ -27,10 +32,12 @@ import Chrono.Proofs.C15RenderL
 import Chrono.Proofs.C15SerdeL
 import Chrono.Proofs.C15ZonedL
 import Chrono.Proofs.ScanBoundaryL
+import Chrono.Proofs.C15ArithL
+import Chrono.Proofs.StrftimeBoundL
 
 namespace Chrono.Props.C15
 open Chrono Chrono.M Chrono.Spec Chrono.Proofs Chrono.Extracted
-open Chrono.Spec.Fields Chrono.Proofs.C15Total Chrono.Proofs.C15Zoned
+open Chrono.Spec.Fields Chrono.Proofs.C15Total Chrono.Proofs.C15Zoned Chrono.Proofs.C15Arith
 
 /-- the calendar constructors return normally for every argument, and a returned date satisfies the
 representation invariant -/
@@ -67,19 +74,20 @@ theorem date_ctors_total (y : Int) (m d o : Nat) :
       exact hinv y o hc.1 hc.2.1 hc.2.2.1 hc.2.2.2
     · rw [if_neg hc] at hx; cases hx
 
-/-- the day-number constructor returns normally for every `i32` -/
-theorem date_from_days_total (n : Int) (hn : -2147483648 ≤ n ∧ n ≤ 2147483647) :
-    ∃ r, Date.from_num_days_from_ce_opt n = .ok r := by
-  obtain ⟨r, h, _⟩ := C01.ctor_days n hn
-  exact ⟨r, h⟩
+/-- the day-number constructor returns normally for every `i32`, the ISO week-date constructor for every
+`i32` year (including `i32::MIN` / `i32::MAX`: the `year ± 1` steps are checked), every week number and
+weekday; a returned date satisfies the representation invariant -/
+theorem date_from_days_total (n : Int) (hn : -2147483648 ≤ n ∧ n ≤ 2147483647) (y : Int) (w : Nat)
+    (wd : Weekday) :
+    OkAnd (Date.from_num_days_from_ce_opt n) DateInv ∧ OkAnd (Date.from_isoywd_opt y w wd) DateInv :=
+  ⟨from_days n hn, from_isoywd y w wd⟩
 
-/-- successor / predecessor return normally on every date of the range -/
-theorem date_succ_pred_total (y : Int) (o : Nat) (hy : MIN_YEAR ≤ y ∧ y ≤ MAX_YEAR)
-    (ho : 1 ≤ o ∧ o ≤ yearLen y) :
-    (∃ r, Date.succ_opt (dateOfYo y o) = .ok r) ∧ (∃ r, Date.pred_opt (dateOfYo y o) = .ok r) := by
-  obtain ⟨r1, h1, _⟩ := C01.succ_ok y o hy ho
-  obtain ⟨r2, h2, _⟩ := C01.pred_ok y o hy ho
-  exact ⟨⟨r1, h1⟩, ⟨r2, h2⟩⟩
+/-- successor / predecessor return normally on every date of the range, and what they return is a date
+of the range -/
+theorem date_succ_pred_total (d : Date) (hd : DateInv d) :
+    OkAnd d.succ_opt DateInv ∧ OkAnd d.pred_opt DateInv := by
+  obtain ⟨a, b, _⟩ := date_ops d hd 0 0 0 0 ⟨0, 0⟩ 0 (by omega) (by decide) (by omega)
+  exact ⟨a, b⟩
 
 /-- duration arithmetic returns normally on all valid operands and every `i32` factor / divisor, and
 whatever it returns is inside the range -/
@@ -107,11 +115,22 @@ theorem delta_ops_total (a b : Delta) (k : Int) (ha : DInv a) (hb : DInv b)
       have := ha.2.2; unfold nsInRange at *; omega
     exact (C06.ofNs_spec _ hr).1
 
-/-- time-of-day arithmetic returns normally for every valid time (leap representations included)
-and every duration -/
-theorem time_ops_total (t u : Time) (d : Delta) (ht : TValid t) (hu : TValid u) (hd : DInv d) :
-    (∃ r, Time.overflowing_add_signed t d = .ok r) ∧ (∃ r, Time.signed_duration_since t u = .ok r) :=
-  ⟨⟨_, C07.add_spec t d ht hd⟩, ⟨_, (C07.diff_spec t u ht hu).1⟩⟩
+/-- time of day: arithmetic returns normally for every valid time (leap representations on any second)
+and every duration, the time part of the result is valid and the difference is inside the `TimeDelta`
+range; what the single-field replacements and the `u32`-argument constructors return is a valid time
+(those models are `Option`-valued: they contain no operation that could panic — every `u32` product is a
+`checked_mul`) -/
+theorem time_ops_total (t u : Time) (d : Delta) (v : Int) (ht : TValid t) (hu : TValid u) (hd : DInv d)
+    (hv : 0 ≤ v) (h m s n : Int) (h0 : 0 ≤ h) (m0 : 0 ≤ m) (s0 : 0 ≤ s) (n0 : 0 ≤ n) (x : Time) :
+    ((∃ r, Time.overflowing_add_signed t d = .ok r ∧ TValid r.1) ∧
+     (∃ r, Time.overflowing_sub_signed t d = .ok r ∧ TValid r.1) ∧
+     (∃ r, Time.signed_duration_since t u = .ok r ∧ DInv r) ∧
+     (∀ x, t.with_hour v = some x → TValid x) ∧ (∀ x, t.with_minute v = some x → TValid x) ∧
+     (∀ x, t.with_second v = some x → TValid x) ∧ (∀ x, t.with_nanosecond v = some x → TValid x)) ∧
+    ((Time.from_hms_opt h m s = some x → TValid x) ∧ (Time.from_hms_milli_opt h m s n = some x → TValid x) ∧
+     (Time.from_hms_micro_opt h m s n = some x → TValid x) ∧ (Time.from_hms_nano_opt h m s n = some x → TValid x) ∧
+     (Time.from_num_seconds_from_midnight_opt s n = some x → TValid x)) :=
+  ⟨time_ops t u d v ht hu hd hv, time_ctors h m s n h0 m0 s0 n0 x⟩
 
 /-- the TZif reader and the TZ-rule reader never panic, on any byte string -/
 theorem tz_readers_total (bytes : List Nat) (ext : Bool) :
@@ -131,56 +150,122 @@ theorem from_timestamp_total (secs nsecs : Int) (hs : Spec.Ts.isI64 secs) (hn : 
   obtain ⟨r, h, hv⟩ := C02.from_ts_meaning secs nsecs hs hn
   exact ⟨r, h, fun dt hd => (hv dt hd).1⟩
 
-/-- date-time ± duration and date ± days return normally on every valid operand (non-leap for the
-date-time form; leap operands: `C03.add_with_leap_operand`) -/
-theorem datetime_arith_total (dt : NaiveDT) (δ : Delta) (d : Date) (n : Int) (hdt : NDTInv dt)
-    (hnl : NonLeap dt) (hδ : DInv δ) (hd : DateInv d) (hn : -2147483648 ≤ n ∧ n ≤ 2147483647) :
-    (∃ r, NaiveDT.checked_add_signed dt δ = .ok r) ∧ (∃ r, Date.add_days d n = .ok r) := by
-  obtain ⟨r1, h1, _⟩ := C03.add_exact dt δ hdt hnl hδ
-  obtain ⟨r2, h2, _⟩ := C03.add_days_exact d n hd hn
-  exact ⟨⟨r1, h1⟩, ⟨r2, h2⟩⟩
+/-- date-time ± duration returns normally on EVERY valid date-time — leap-second representations
+included (C03 `add_with_leap_operand`) — and every duration, for both `checked_add_signed` and
+`checked_sub_signed`, and what is returned is a valid date-time -/
+theorem datetime_arith_total (dt : NaiveDT) (δ : Delta) (hdt : NDTInv dt) (hδ : DInv δ) :
+    OkAnd (NaiveDT.checked_add_signed dt δ) NDTInv ∧ OkAnd (NaiveDT.checked_sub_signed dt δ) NDTInv :=
+  datetime_arith dt δ hdt hδ
+
+/-- non-vacuity: a leap second crossing midnight; the range ends -/
+example : NDTInv ⟨dateOfYo 2016 366, ⟨86399, 1500000000⟩⟩ ∧
+    NaiveDT.checked_add_signed ⟨dateOfYo 2016 366, ⟨86399, 1500000000⟩⟩ ⟨0, 500000000⟩ =
+      .ok (some ⟨dateOfYo 2017 1, ⟨0, 0⟩⟩) ∧
+    NaiveDT.checked_sub_signed NaiveDT.MIN ⟨0, 1⟩ = .ok none ∧
+    NaiveDT.checked_add_signed NaiveDT.MAX ⟨0, 1⟩ = .ok none := by decide +kernel
 
 /-- zone-aware values: building from a wall clock and reading the wall clock (with the one-day
-headroom) return normally for every valid value and every offset a `FixedOffset` can hold -/
+headroom) return normally for every valid value and every offset a `FixedOffset` can hold; a value built
+is well formed (UTC reading inside the range, the given offset), the wall clock read is a well-formed
+reading of the calendar extended by one day at each end -/
 theorem zoned_total (off : Int) (ℓ : NaiveDT) (z : Zoned) (ho : OffValid off) (hℓ : NDTInv ℓ)
     (hz : ZInv z) :
-    (∃ r, Zoned.from_local_datetime off ℓ = .ok r) ∧ (∃ l, Zoned.overflowing_naive_local z = .ok l) := by
+    (∃ r, Zoned.from_local_datetime off ℓ = .ok r ∧ ∀ x, r = some x → ZInv x ∧ x.off = off) ∧
+    (∃ l, Zoned.overflowing_naive_local z = .ok l ∧ ExtNDTInv l) := by
   obtain ⟨r, h, _⟩ := C04.fromLocal_fails_iff off ℓ ho hℓ
-  obtain ⟨l, h2, _⟩ := C04.headroom_sound z hz
-  exact ⟨⟨r, h⟩, ⟨l, h2⟩⟩
+  obtain ⟨l, h2, h3, _⟩ := C04.headroom_sound z hz
+  refine ⟨⟨r, h, fun x hx => ?_⟩, ⟨l, h2, h3⟩⟩
+  obtain ⟨a, b, _⟩ := C04.local_of_fromLocal off ℓ ho hℓ x (by rw [h, hx])
+  exact ⟨b, a⟩
 
-/-- month stepping and every date field replacement return normally for every date of the range and
-every argument (including `u32::MAX`-sized ones) -/
-theorem date_ops_total (y : Int) (o : Nat) (hy : MIN_YEAR ≤ y ∧ y ≤ MAX_YEAR) (ho : 1 ≤ o ∧ o ≤ yearLen y)
-    (n v : Nat) (y' : Int) :
-    (∃ r, (dateOfYo y o).checked_add_months n = .ok r) ∧ (∃ r, (dateOfYo y o).checked_sub_months n = .ok r) ∧
-    (∃ r, (dateOfYo y o).with_year y' = .ok r) ∧ (∃ r, (dateOfYo y o).with_month v = .ok r) ∧
-    (∃ r, (dateOfYo y o).with_day v = .ok r) ∧ (∃ r, (dateOfYo y o).with_ordinal v = .ok r) ∧
-    (∃ r, (dateOfYo y o).with_month0 v = .ok r) ∧ (∃ r, (dateOfYo y o).with_day0 v = .ok r) ∧
-    (∃ r, (dateOfYo y o).with_ordinal0 v = .ok r) := by
-  obtain ⟨m1, m2⟩ := C08.months_spec y o hy ho n
-  obtain ⟨w1, w2, w3, w4, w5, w6, w7⟩ := C08.with_field_spec y o hy ho v y'
-  exact ⟨⟨_, m1⟩, ⟨_, m2⟩, ⟨_, w1⟩, ⟨_, w2⟩, ⟨_, w4⟩, ⟨_, w6⟩, ⟨_, w3⟩, ⟨_, w5⟩, ⟨_, w7⟩⟩
+/-- every date-level stepping and replacement — `succ/pred`, `checked_add/sub_months` (any count),
+`diff_months` (every `i32`), the seven field replacements (arguments of any size, `u32::MAX` included),
+`add_days` (every `i32`), `checked_add/sub_days` (every `u64`), `checked_add/sub_signed` (every duration)
+— on every date of the range: returns normally, and what it returns is a date of the range -/
+theorem date_ops_total (d : Date) (hd : DateInv d) (n v : Nat) (y' k : Int) (δ : Delta) (c : Int)
+    (hk : -2147483648 ≤ k ∧ k ≤ 2147483647) (hδ : DInv δ) (hc : 0 ≤ c ∧ c ≤ 18446744073709551615) :
+    OkAnd d.succ_opt DateInv ∧ OkAnd d.pred_opt DateInv ∧
+    OkAnd (d.checked_add_months n) DateInv ∧ OkAnd (d.checked_sub_months n) DateInv ∧
+    OkAnd (d.diff_months k) DateInv ∧
+    OkAnd (d.with_year y') DateInv ∧ OkAnd (d.with_month v) DateInv ∧ OkAnd (d.with_month0 v) DateInv ∧
+    OkAnd (d.with_day v) DateInv ∧ OkAnd (d.with_day0 v) DateInv ∧ OkAnd (d.with_ordinal v) DateInv ∧
+    OkAnd (d.with_ordinal0 v) DateInv ∧
+    OkAnd (Date.add_days d k) DateInv ∧ OkAnd (Date.checked_add_days d c) DateInv ∧
+    OkAnd (Date.checked_sub_days d c) DateInv ∧ OkAnd (Date.checked_add_signed d δ) DateInv ∧
+    OkAnd (Date.checked_sub_signed d δ) DateInv :=
+  date_ops d hd n v y' k δ c hk hδ hc
+
+/-- non-vacuity at the range ends and the integer extremes -/
+example : DateInv Date.MAX ∧ DateInv Date.MIN ∧ Date.MAX.with_ordinal0 4294967295 = .ok none ∧
+    Date.MIN.diff_months (-2147483648) = .ok none ∧
+    Date.checked_sub_days Date.MAX 18446744073709551615 = .ok none ∧
+    Date.from_isoywd_opt (-2147483648) 1 .mon = .ok none ∧ Date.from_isoywd_opt 2147483647 53 .sun = .ok none := by
+  decide +kernel
+
+/-- the `TimeDelta` constructors `new`, `try_weeks/days/hours/minutes/seconds` (`try_unit`),
+`try_milliseconds`, `microseconds`, `nanoseconds` on every `i64` (any `u32` nanosecond field for `new`):
+whatever they return is inside the range (`Option`-valued models: the products are `checked_mul`) -/
+theorem delta_ctors_total (secs nanos n unit : Int) (hn0 : 0 ≤ nanos)
+    (hu : unit = 1 ∨ unit = 60 ∨ unit = 3600 ∨ unit = 86400 ∨ unit = 604800)
+    (hn : -9223372036854775808 ≤ n ∧ n ≤ 9223372036854775807) (x : Delta) :
+    (Delta.new secs nanos = some x → DInv x) ∧ (Delta.try_unit unit n = some x → DInv x) ∧
+    (Delta.try_milliseconds n = some x → DInv x) ∧ DInv (Delta.microseconds n) ∧ DInv (Delta.nanoseconds n) :=
+  delta_ctors secs nanos n unit hn0 hu hn x
 
 /-- rounding never panics: every failure is reported by value -/
 theorem rounding_total (op : Round.Op) (stamp span : Option Int)
     (hspan : ∀ p, span = some p → p ≤ 9223372036854775807) : Round.run op stamp span ≠ .panic :=
   (C17.err_iff op stamp span hspan).2.2.2.1
 
-/-- iterating the items of ANY format string terminates: each step consumes at least one byte and
-queues at most 12 further items, so there are at most 13 items per input byte, in strict and in
-lenient mode (`l`), and the `next` iterator ends within 13·len + 1 calls.  (The property text's
-bound "one item per input byte plus a constant" is not met by composite specifiers: known finding
-F18; the linear bound is what holds.) -/
+/-- iterating the items of ANY format string terminates, in strict and in lenient mode (`l`): each
+`parse_next_item` step consumes at least one byte and queues at most 12 further items, and a step that
+queues anything (a composite specifier) has consumed at least two bytes; so TWICE THE NUMBER OF ITEMS IS
+AT MOST 13 TIMES THE BYTE LENGTH (sharp: `%c` = 13 items from 2 bytes; the harness enforces exactly this
+bound), and the `next` iterator ends within 13·len + 1 calls.  (The property text's bound "one item per
+input byte plus a constant" is not met by composite specifiers: known finding F18; this linear bound is
+what holds.) -/
 theorem strftime_terminates (l : Bool) (s : List Nat) :
-    (Strftime.itemsAux l (s.length + 1) s).length ≤ 13 * s.length ∧
+    2 * (Strftime.itemsAux l (s.length + 1) s).length ≤ 13 * s.length ∧
     (∀ n, 13 * s.length < n → Strftime.drain l n ⟨s, []⟩ = Strftime.itemsAux l (s.length + 1) s) := by
-  obtain ⟨_, _, h3, h4⟩ := C12.strftime_terminates l s
-  exact ⟨h3, h4⟩
+  obtain ⟨_, _, _, h4⟩ := C12.strftime_terminates l s
+  exact ⟨StrftimeBound.itemsAux_length2 l _ s, h4⟩
 
-/-- the documented panics are real: operator subtraction on the minimum duration overflows
-(checked form says `none`), so the operator's `expect` fires -/
-example : Delta.checked_sub Delta.MIN ⟨0, 1⟩ = .ok none := by decide
+/-- the bound is attained, and the literal bound of the property text fails (F18) -/
+example : (Strftime.items [37, 99]).length = 13 ∧ 2 * 13 = 13 * [37, 99].length ∧
+    ¬ (Strftime.items [37, 99]).length ≤ [37, 99].length + 10 := by decide +kernel
+
+/-- **the documented panics, and only they.**  The operations the property lists as panicking do panic
+in the models, exactly on the documented inputs: the `+` operator of `NaiveDateTime` panics exactly when the
+exact sum is not representable (C03 `operator_exact`); `naive_local` of a well-formed value panics exactly
+when the wall clock lies outside the range, while `overflowing_naive_local` never does (C04
+`headroom_sound`); `to_rfc2822` panics exactly when the wall-clock year is outside 0–9999 (C11
+`writer_shape`). -/
+theorem documented_panics (dt : NaiveDT) (δ : Delta) (hdt : NDTInv dt) (hnl : NonLeap dt) (hδ : DInv δ)
+    (z : Zoned) (hz : ZInv z) (Y : Int) (o : Nat) (hw : Spec.Rfc2822.WallDate z Y o) :
+    (NaiveDT.add dt δ = .panic ↔ ¬ (NS_MIN ≤ instNs dt + ns δ ∧ instNs dt + ns δ ≤ NS_MAX_DT)) ∧
+    (Zoned.naive_local z = .panic ↔ ¬ InRangeSecs (wallSecs z)) ∧
+    (Rfc2822.to_rfc2822 z = .panic ↔ ¬ (0 ≤ Y ∧ Y ≤ 9999)) := by
+  obtain ⟨a1, a2⟩ := C03.operator_exact dt δ hdt hnl hδ
+  obtain ⟨l, _, _, _, _, hn, _⟩ := C04.headroom_sound z hz
+  have hw' := C11.writer_shape z hz Y o hw
+  refine ⟨⟨fun hp hin => ?_, a2⟩, ?_, ?_⟩
+  · obtain ⟨x, hx, _⟩ := a1 hin; rw [hx] at hp; cases hp
+  · rw [hn]
+    constructor
+    · intro hp hin; rw [if_pos hin] at hp; cases hp
+    · intro hout; rw [if_neg hout]
+  · rw [hw']
+    constructor
+    · intro hp hin; rw [if_pos hin] at hp; cases hp
+    · intro hout; rw [if_neg hout]
+
+/-- the documented panics are real: operator subtraction on the minimum duration overflows (checked form
+says `none`), the `+` operator at the range end, `naive_local` of `MAX_UTC` viewed at `+01:00` (while the
+headroom view succeeds), `to_rfc2822` in year 10000 -/
+example : Delta.checked_sub Delta.MIN ⟨0, 1⟩ = .ok none ∧ NaiveDT.add NaiveDT.MAX ⟨0, 1⟩ = .panic ∧
+    Zoned.naive_local ⟨NaiveDT.MAX, 3600⟩ = .panic ∧
+    (Zoned.overflowing_naive_local ⟨NaiveDT.MAX, 3600⟩).isOk = true ∧
+    Rfc2822.to_rfc2822 ⟨⟨dateOfYo 10000 1, ⟨0, 0⟩⟩, 0⟩ = .panic := by decide +kernel
 
 /-! ## parsers and field resolution -/
 
